@@ -16,6 +16,10 @@ PATTERNS = {
     "counted": "^a{1,2}b?$",
     "hex-escapes": "^[\\x41-\\x5a]*$",
     "astral": "^[\\U00010000-\\U0010FFFF]+$",
+    "astral-three-blocks": "^[\\U0001F300-\\U0001FAFF]+$",
+    "astral-two-blocks": "^[\\U0001F3F0-\\U0001F40F]+$",
+    "astral-one-block": "^[\\U0001F600-\\U0001F64F]+$",
+    "bmp-and-astral": "^[a-z\\U0001F300-\\U0001F7FF]+$",
     "dot": "^a.$",
     "alternation": "^(ab|b)+$",
 }
@@ -148,7 +152,14 @@ STR_VALUES = [""] + [
     "".join(combo)
     for n in (1, 2, 3)
     for combo in itertools.product(["a", "b", "A", "\U00010000", " "], repeat=n)
-] + ["aaaa", "abab", "\U0010FFFF\U00010000\U00010400\U0001F600", "a\n", "ab\n"]
+] + ["aaaa", "abab", "\U0010FFFF\U00010000\U00010400\U0001F600", "a\n", "ab\n"] + [
+    # the ends and the inner blocks of the astral ranges of the pattern menu
+    chr(point)
+    for point in (
+        0x1F2FF, 0x1F300, 0x1F3EF, 0x1F3F0, 0x1F3FF, 0x1F400, 0x1F40F, 0x1F410, 0x1F5FF, 0x1F600,
+        0x1F64F, 0x1F650, 0x1F7FF, 0x1F800, 0x1FAFF, 0x1FB00,
+    )
+] + ["\U0001F400a", "a\U0001F7FF", "\U0001F300\U0001FAFF"]
 BYTE_VALUES = [b"x" * n for n in range(0, 6)]
 
 
